@@ -417,7 +417,8 @@ def unit_main(sess, ctx):
                   res == 0 and names.count("stop_all") == 1 and names.index("stop_all") > names.index("start_all"), props=P15 + ("C14",))
         if with_saver:
             eng.prove("C15:main:stream-saver-joined-then-exported-after-stop_all",
-                      "saver.join" in names and "saver.export" in names and names.index("stop_all") < names.index("saver.join") < names.index("saver.export"),
+                      "stop_all" in names and "saver.join" in names and "saver.export" in names and
+                      names.index("stop_all") < names.index("saver.join") < names.index("saver.export"),
                       props=P15 + ("C13", "C14"))
         if exp_out == "ok":
             eng.prove("C15:main:nothing-printed-by-main-itself", gh.get("stdout", []) == [], props=P15)
